@@ -73,6 +73,64 @@ def ensure_driver():
         raise EngineError("driver build failed:\n" + r.stdout[-4000:])
 
 
+FIXTURES = {
+    # name: (source file under engine/fixtures, dependency lines with %s = repo root, fact file produced)
+    "derivefix": ("derive_shapes.rs",
+                  ['qbice_serialize = { path = "%s/crates/serialize" }', 'qbice_stable_hash = { path = "%s/crates/stable_hash" }'],
+                  "qbv_fixture_derivefix"),
+}
+
+
+def facts_for_fixture(name):
+    """Type-checks a fixture crate of /verif (path-depending on the repository's crates) under the E1 driver and returns
+    the fact directory: the MIR of the impls that the repository's derive macros generate for the fixture types."""
+    src_name, deps, crate = FIXTURES[name]
+    root = repo_root()
+    os.makedirs(CACHE, exist_ok=True)
+    tag = hashlib.sha256(root.encode()).hexdigest()[:8]
+    with open(os.path.join(CACHE, "extract-%s.lock" % name), "w") as lock:
+        fcntl.flock(lock, fcntl.LOCK_EX)
+        ensure_driver()
+        src = open(os.path.join(VERIF, "engine", "fixtures", src_name)).read()
+        h = tree_hash(root) + hashlib.sha256(src.encode()).hexdigest()
+        fact_dir = os.path.join(CACHE, "facts-%s-%s" % (name, tag))
+        stamp = os.path.join(fact_dir, "TREE_HASH")
+        want = os.path.join(fact_dir, crate + ".jsonl")
+        if os.path.exists(stamp) and open(stamp).read().strip() == h and os.path.exists(want) and os.path.getsize(want) > 0:
+            return fact_dir
+        if os.path.isdir(fact_dir):
+            shutil.rmtree(fact_dir)
+        os.makedirs(fact_dir)
+        d = os.path.join(CACHE, "fixture-%s-%s" % (name, tag))
+        os.makedirs(os.path.join(d, "src"), exist_ok=True)
+        with open(os.path.join(d, "src", "lib.rs"), "w") as fh:
+            fh.write(src)
+        with open(os.path.join(d, "Cargo.toml"), "w") as fh:
+            fh.write('[package]\nname = "%s"\nversion = "0.0.0"\nedition = "2024"\n\n[workspace]\n\n[dependencies]\n%s' % (
+                crate, "".join(l % root + "\n" for l in deps)))
+        if not os.path.exists(os.path.join(d, "Cargo.lock")):
+            shutil.copy(os.path.join(root, "Cargo.lock"), os.path.join(d, "Cargo.lock"))
+        target = os.path.join(CACHE, "target-%s-%s" % (name, tag))
+        for f in glob.glob(os.path.join(target, "debug", ".fingerprint", "qb*")):
+            shutil.rmtree(f, ignore_errors=True)
+        env = dict(os.environ)
+        env.update({
+            "LD_LIBRARY_PATH": os.path.join(sysroot(), "lib") + ":" + env.get("LD_LIBRARY_PATH", ""),
+            "CARGO_INCREMENTAL": "0", "CARGO_NET_OFFLINE": "true", "QBV_FACT_DIR": fact_dir,
+            "QBV_ANALYZE_ROOTS": ":".join([root, d]), "RUSTC_WORKSPACE_WRAPPER": DRIVER, "CARGO_TARGET_DIR": target,
+        })
+        env.pop("RUSTFLAGS", None)
+        env.pop("RUSTC_WRAPPER", None)
+        r = subprocess.run(["cargo", "+nightly", "check", "--offline"], cwd=d, env=env, stdout=subprocess.PIPE, stderr=subprocess.STDOUT, text=True)
+        if r.returncode != 0:
+            raise EngineError("fixture extraction (%s) failed:\n%s" % (name, r.stdout[-6000:]))
+        if not os.path.exists(want) or os.path.getsize(want) == 0:
+            raise EngineError("fact file missing or empty after fixture extraction: %s" % want)
+        with open(stamp, "w") as fh:
+            fh.write(h + "\n")
+        return fact_dir
+
+
 def facts_for(shape, extra_roots=()):
     """Returns the fact directory for `shape`, (re-)extracting when /repo changed."""
     root = repo_root()
